@@ -5,7 +5,8 @@
    from the input bytes alone (FilePieceSpec.v); `chunks` is the oracle of read() lengths; `repaired` / `original`
    select the code after / before the three fix: commits. *)
 From Coq Require Import List NArith Arith.
-From Kenlm Require Import C18.FilePieceModel C18.FilePieceSpec C18.WindowProofs C18.OpsProofs C18.MainProofs C18.Witnesses.
+From Kenlm Require Import C18.FilePieceModel C18.FilePieceSpec C18.WindowProofs C18.OpsProofs C18.MainProofs C18.Witnesses
+  C18.ReadCompressedModel C18.ReadCompressedProofs.
 Import ListNotations.
 
 (* MAIN: for every input, every read() chunking, every min_buffer, every page size, all three backends and every
@@ -59,6 +60,21 @@ Proof. exact shift_preserves_input. Qed.
 Theorem C18_read_or_eof_complete : forall amt data o g d o', read_or_eof amt data o = (g, d, o') ->
   data = g ++ d /\ (length g = amt \/ d = []).
 Proof. exact read_or_eof_complete. Qed.
+
+(* ReadCompressed over concatenated members, decompressors as oracles: for every split of the compressed bytes into
+   read() calls (fdo), every input/output granularity of the decompressors (deco) and every sequence of request sizes,
+   the calls deliver the concatenated plaintext in order, never more than asked, nothing lost or repeated, and return
+   0 only when nothing was asked for or nothing is left -- hence 0 for ever after the end (good_reads spells this out) *)
+Theorem C18_members_concat : forall members fdo deco reqs,
+  exists chunks, rc_read_all reqs (rc_open members fdo deco) = Some chunks /\
+                 good_reads (concat (map m_plain members)) reqs chunks.
+Proof. exact members_concat. Qed.
+
+Theorem C18_good_reads_meaning : forall reqs plain chunks, good_reads plain reqs chunks ->
+  (exists rest, plain = concat chunks ++ rest) /\ (plain = [] -> Forall (fun c => c = []) chunks).
+Proof.
+  intros reqs plain chunks G. split; [now apply (good_reads_prefix reqs)|]. intros E. subst. now apply (good_reads_after_end reqs).
+Qed.
 
 (* ---- the code before the repairs (faithful model, variant `original`) ---- *)
 (* F11: Offset() under-reports after a compaction in read mode *)
